@@ -344,7 +344,10 @@ SOp(w, ev) ==
                        \/ Has(ev, "ress") /\ \E i \in 1..Len(ev.ress) : ev.ress[i] # exp
                        \/ Has(ev, "ress_w") /\ \E i \in 2..Len(ev.ress_w) :
                              ev.ress_w[i] # (IF exp = Absent \/ ev.val < 0 THEN exp ELSE <<exp[1], ev.val>>)
-      mk(w2, exp) == [w |-> w2, f |-> IF bad(exp) THEN {F(prop, "storage op result", <<ev.cls, ev.path, s, h, exp>>)} ELSE {}]
+      \* the lending join's lookup by entity is also part of C06, restricted lookups of C13
+      props == {prop} \cup (IF ev.path \in {"lend_get", "lend2_get", "lend_get_mut"} THEN {"C06"} ELSE {})
+                      \cup (IF ev.path \in {"r_get_other", "rl_get_other", "rm_get_other", "rm_get_other_mut"} THEN {"C13"} ELSE {})
+      mk(w2, exp) == [w |-> w2, f |-> IF bad(exp) THEN {F(p, "storage op result", <<ev.cls, ev.path, s, h, exp>>) : p \in props} ELSE {}]
       viaEntry == ev.path \in {"entry_replace", "entry_insert"}
   IN CASE ev.cls = "read"   -> mk(w, Cur(w, s, h))
        [] ev.cls = "write"  ->
@@ -399,8 +402,12 @@ Members(w, s) == SortedById({h \in DOMAIN w.comp[s] : ~DeadOrUnknown(w, h)})
 WOp(w, ev) ==
   LET s == ev.s
       mem == Members(w, s)
-      prop == IF ev.k = "restrict" THEN "C13" ELSE "C04"
-      flag(b, what, exp) == IF b THEN {F(prop, what, <<ev.k, s, exp>>)} ELSE {}
+      \* joins over a single storage are joins (C06; parallel ones C07) as well as map reads (C04)
+      par == Has(ev, "v") /\ ev.v \in {"par", "read_par", "mut_par"}
+      props == IF ev.k = "restrict" THEN {"C13"} \cup (IF par THEN {"C07"} ELSE {})
+               ELSE IF ev.k \in {"join", "joinmut", "joinent", "entries", "drain"} THEN {"C04", IF par THEN "C07" ELSE "C06"}
+               ELSE {"C04"}
+      flag(b, what, exp) == IF b THEN {F(p, what, <<ev.k, s, exp>>) : p \in props} ELSE {}
   IN CASE ev.k = "drain" ->
             LET n == IF ev.n < 0 \/ ev.n > Len(mem) THEN Len(mem) ELSE ev.n
                 taken == SubSeq(mem, 1, n)
